@@ -325,6 +325,34 @@ def find_loop(func, kind=ast.For):
     return loops[0]
 
 
+def _memo_lifetime(f, memo):
+    """'local' when the memo handed to deepcopy is a dictionary created inside this call; 'persistent' when it is a parameter with a mutable default,
+    an attribute or a global; 'unknown' otherwise"""
+    def fresh(v):
+        return isinstance(v, ast.Dict) or (isinstance(v, ast.Call) and dump(v.func) == "dict")
+    if fresh(memo):
+        return "local"
+    if isinstance(memo, ast.Attribute):
+        return "persistent"
+    if isinstance(memo, ast.Name):
+        a = f.node.args
+        pos = a.posonlyargs + a.args
+        defaults = dict(zip([x.arg for x in pos[len(pos) - len(a.defaults):]], a.defaults))
+        defaults.update({x.arg: d for x, d in zip(a.kwonlyargs, a.kw_defaults) if d is not None})
+        stores = [n for n in ast.walk(f.node) if isinstance(n, ast.Assign) and any(isinstance(t, ast.Name) and t.id == memo.id for t in n.targets)]
+        params = {x.arg for x in pos + a.kwonlyargs}
+        if memo.id in params:
+            d = defaults.get(memo.id)
+            if d is not None and (isinstance(d, (ast.Dict, ast.List, ast.Set)) or (isinstance(d, ast.Call) and dump(d.func) in ("dict", "list", "set"))):
+                return "persistent"
+            return "unknown"
+        if stores and all(fresh(s_.value) for s_ in stores):
+            return "local"
+        if not stores:
+            return "persistent"     # a module-level name
+    return "unknown"
+
+
 def run(prog, rep, tier):
     rep.explanation = ("Order automaton over every control-flow path of advance()/evolve()/reset(), keyword/target "
                        "agreement at every operator and logbook call site, and a who-may-write/read rule for start_*. "
@@ -472,6 +500,18 @@ def run(prog, rep, tier):
                     d = prog.dotted(rst.module, v.func) if isinstance(v, ast.Call) else None
                     if d == "copy.deepcopy" and v.args and field_of(v.args[0]) == "start_" + fld:
                         done[fld] = True
+                        # a memo dictionary must not outlive this call: a memo hit returns the copy made by an EARLIER reset()
+                        memo = v.args[1] if len(v.args) > 1 else next((k.value for k in v.keywords if k.arg == "memo"), None)
+                        if memo is not None and not (isinstance(memo, ast.Constant) and memo.value is None):
+                            verdict = _memo_lifetime(rst, memo)
+                            if verdict == "persistent":
+                                rep.violate("R3-reset", rst.qualname, "%s is deep-copied with the memo %s, which persists across calls of reset() (mutable default / attribute / global): "
+                                            "every later reset() gets memo hits and hands back the working container of the first replicate" % (fld, dump(memo)), where(rst, st),
+                                            "copy.deepcopy(self.start_%s) or a memo created inside reset()" % fld, dump(v))
+                                done[fld] = False
+                            elif verdict == "unknown":
+                                rep.unrec("R3-reset", rst.qualname, "lifetime of the deepcopy memo %s not traced" % dump(memo))
+                                done[fld] = False
                     elif d in ("copy.copy", "copy.deepcopy") and v.args and field_of(v.args[0]) in START:
                         src = field_of(v.args[0])
                         if d == "copy.copy":
